@@ -21,59 +21,64 @@ package parser
 // ---------------------------------------------------------------------------
 // parser state (C04, C10, C09).  Ghost state: the token stream tokT(k) (kind of the k-th token the
 // lexer yields, arbitrary) and the position ppos with the invariant
-//     p.curr.Type == tokT(ppos) && p.next.Type == tokT(ppos + 1).
+//     p.curr.Type == tokT(ppos) && p.next.Type == tokT(ppos + 1) && tokOK(p.curr.Type, p.curr.Value) && tokOK(p.next.Type, p.next.Value).
 // The `defines` clauses of advance / advance2 / setCurrent say how the ghost state moves; everything
 // else is proved from the bodies against an arbitrary stream, i.e. for every expression text.
 
 //@ ghost precOf(t Int) Int = ite(tokRank(t) == 0, 0, tokRank(t) + 1)
 //@ ghost infixTok(t Int) Bool = tokRank(t) != 0 && t != const("lexer.NotToken")
 
+// literal tokens carry their delimiters (established by the lexer, needed to strip them safely)
+
+
 //@ func parser.advance
 //@   tags C04 C10 C09
 //@   assigns p.curr, p.next, p.lex, fam:G_pos, fam:G_toks
-//@   requires pi: p.curr.Type == tokT(ppos) && p.next.Type == tokT(ppos + 1)
+//@   requires pi: p.curr.Type == tokT(ppos) && p.next.Type == tokT(ppos + 1) && tokOK(p.curr.Type, p.curr.Value) && tokOK(p.next.Type, p.next.Value)
 //@   ensures shift: result == nil ==> p.curr == old(p.next)
+//@   ensures tokens: result == nil ==> tokOK(p.curr.Type, p.curr.Value) && tokOK(p.next.Type, p.next.Value)
 //@   defines result == nil ==> ppos == old(ppos) + 1 && toks() == old(toks()) && p.next.Type == tokT(ppos + 1)
 //@   defines result != nil ==> ppos == old(ppos) && toks() == old(toks())
 
 //@ func parser.advance2
 //@   tags C04 C10 C09
 //@   assigns p.curr, p.next, p.lex, fam:G_pos, fam:G_toks
-//@   requires pi: p.curr.Type == tokT(ppos) && p.next.Type == tokT(ppos + 1)
+//@   requires pi: p.curr.Type == tokT(ppos) && p.next.Type == tokT(ppos + 1) && tokOK(p.curr.Type, p.curr.Value) && tokOK(p.next.Type, p.next.Value)
+//@   ensures tokens: result == nil ==> tokOK(p.curr.Type, p.curr.Value) && tokOK(p.next.Type, p.next.Value)
 //@   defines result == nil ==> ppos == old(ppos) + 2 && toks() == old(toks()) && p.curr.Type == tokT(ppos) && p.next.Type == tokT(ppos + 1)
 //@   defines result != nil ==> ppos == old(ppos) && toks() == old(toks())
 
 //@ func parser.setCurrent
 //@   tags C04
 //@   assigns p.curr, fam:G_toks
-//@   ensures p.curr == tok
+//@   ensures p.curr == tok && p.next == old(p.next)
 //@   defines toks() == upd(old(toks()), ppos, tok.Type)
 
 //@ func parser.parse
 //@   tags C04 C09
 //@   assigns p.curr, p.next, p.lex, fam:G_pos, fam:G_toks
-//@   requires pi: p.curr.Type == tokT(ppos) && p.next.Type == tokT(ppos + 1)
+//@   requires pi: p.curr.Type == tokT(ppos) && p.next.Type == tokT(ppos + 1) && tokOK(p.curr.Type, p.curr.Value) && tokOK(p.next.Type, p.next.Value)
 //@   ensures[C04] end: result1 == nil ==> p.curr.Type == const("lexer.EndToken") && result0 != nil
 
 //@ func parser.filter
 //@   tags C04 C09
 //@   assigns p.curr, p.next, p.lex, fam:G_pos, fam:G_toks
-//@   requires pi: p.curr.Type == tokT(ppos) && p.next.Type == tokT(ppos + 1)
-//@   ensures pi: result1 == nil ==> p.curr.Type == tokT(ppos) && p.next.Type == tokT(ppos + 1)
+//@   requires pi: p.curr.Type == tokT(ppos) && p.next.Type == tokT(ppos + 1) && tokOK(p.curr.Type, p.curr.Value) && tokOK(p.next.Type, p.next.Value)
+//@   ensures pi: result1 == nil ==> p.curr.Type == tokT(ppos) && p.next.Type == tokT(ppos + 1) && tokOK(p.curr.Type, p.curr.Value) && tokOK(p.next.Type, p.next.Value)
 //@   ensures[C04] close: result1 == nil ==> tokT(ppos - 1) == const("lexer.CloseSqBraceToken") && ppos > old(ppos) + 1
 
 //@ func parser.expression
 //@   tags C10 C04 C09
 //@   assigns p.curr, p.next, p.lex, fam:G_pos, fam:G_toks
-//@   requires pi: p.curr.Type == tokT(ppos) && p.next.Type == tokT(ppos + 1)
-//@   ensures pi: result1 == nil ==> p.curr.Type == tokT(ppos) && p.next.Type == tokT(ppos + 1)
+//@   requires pi: p.curr.Type == tokT(ppos) && p.next.Type == tokT(ppos + 1) && tokOK(p.curr.Type, p.curr.Value) && tokOK(p.next.Type, p.next.Value)
+//@   ensures pi: result1 == nil ==> p.curr.Type == tokT(ppos) && p.next.Type == tokT(ppos + 1) && tokOK(p.curr.Type, p.curr.Value) && tokOK(p.next.Type, p.next.Value)
 //@   ensures[C09] progress: result1 == nil ==> ppos > old(ppos) && result0 != nil
 //@   ensures[C10] stop: result1 == nil ==> precOf(p.curr.Type) <= prec || !infixTok(p.curr.Type)
 //@   at advance#* assert[C10] tighter: precOf(p.curr.Type) > prec
 //@   at advance2#* assert[C10] tighter: precOf(p.curr.Type) > prec
 //@   at expression#* assert[C10] leftassoc: arg1 == precOf(tokT(ppos - 1))
 //@   loop 1
-//@     invariant p.curr.Type == tokT(ppos) && p.next.Type == tokT(ppos + 1)
+//@     invariant p.curr.Type == tokT(ppos) && p.next.Type == tokT(ppos + 1) && tokOK(p.curr.Type, p.curr.Value) && tokOK(p.next.Type, p.next.Value)
 //@     invariant ppos > old(ppos)
 //@     invariant newPrec == precOf(p.curr.Type)
 //@     invariant node != nil
@@ -81,56 +86,198 @@ package parser
 //@ func parser.primaryExpression
 //@   tags C10 C04 C09
 //@   assigns p.curr, p.next, p.lex, fam:G_pos, fam:G_toks
-//@   requires pi: p.curr.Type == tokT(ppos) && p.next.Type == tokT(ppos + 1)
-//@   ensures pi: result1 == nil ==> p.curr.Type == tokT(ppos) && p.next.Type == tokT(ppos + 1)
+//@   requires pi: p.curr.Type == tokT(ppos) && p.next.Type == tokT(ppos + 1) && tokOK(p.curr.Type, p.curr.Value) && tokOK(p.next.Type, p.next.Value)
+//@   ensures pi: result1 == nil ==> p.curr.Type == tokT(ppos) && p.next.Type == tokT(ppos + 1) && tokOK(p.curr.Type, p.curr.Value) && tokOK(p.next.Type, p.next.Value)
 //@   ensures[C09] progress: result1 == nil ==> ppos > old(ppos) && result0 != nil
 //@   at expression#* assert[C10] prefix: arg1 == 1 || arg1 >= precOf(const("lexer.MultiplyToken"))
 
 //@ func parser.projection
 //@   tags C04 C09 C01
 //@   assigns p.curr, p.next, p.lex, fam:G_pos, fam:G_toks
-//@   requires pi: p.curr.Type == tokT(ppos) && p.next.Type == tokT(ppos + 1)
-//@   ensures pi: result1 == nil ==> p.curr.Type == tokT(ppos) && p.next.Type == tokT(ppos + 1)
+//@   requires pi: p.curr.Type == tokT(ppos) && p.next.Type == tokT(ppos + 1) && tokOK(p.curr.Type, p.curr.Value) && tokOK(p.next.Type, p.next.Value)
+//@   ensures pi: result1 == nil ==> p.curr.Type == tokT(ppos) && p.next.Type == tokT(ppos + 1) && tokOK(p.curr.Type, p.curr.Value) && tokOK(p.next.Type, p.next.Value)
 //@   ensures[C09] progress: result1 == nil && result0 != nil ==> ppos > old(ppos)
 //@   ensures none: result1 == nil && result0 == nil ==> ppos == old(ppos) && toks() == old(toks())
 //@   loop 1
-//@     invariant p.curr.Type == tokT(ppos) && p.next.Type == tokT(ppos + 1) && ppos > old(ppos) && newPrec == precOf(p.curr.Type) && node != nil
+//@     invariant p.curr.Type == tokT(ppos) && p.next.Type == tokT(ppos + 1) && tokOK(p.curr.Type, p.curr.Value) && tokOK(p.next.Type, p.next.Value) && ppos > old(ppos) && newPrec == precOf(p.curr.Type) && node != nil
 
 //@ func parser.index
 //@   tags C04 C09 C12
 //@   assigns p.curr, p.next, p.lex, fam:G_pos, fam:G_toks
-//@   requires pi: p.curr.Type == tokT(ppos) && p.next.Type == tokT(ppos + 1)
-//@   ensures pi: result2 == nil ==> p.curr.Type == tokT(ppos) && p.next.Type == tokT(ppos + 1)
+//@   requires pi: p.curr.Type == tokT(ppos) && p.next.Type == tokT(ppos + 1) && tokOK(p.curr.Type, p.curr.Value) && tokOK(p.next.Type, p.next.Value)
+//@   ensures pi: result2 == nil ==> p.curr.Type == tokT(ppos) && p.next.Type == tokT(ppos + 1) && tokOK(p.curr.Type, p.curr.Value) && tokOK(p.next.Type, p.next.Value)
 //@   ensures[C04] close: result2 == nil ==> tokT(ppos - 1) == const("lexer.CloseSqBraceToken") && ppos > old(ppos) && result0 != nil
 
 //@ func parser.selectArray
 //@   tags C04 C09
 //@   assigns p.curr, p.next, p.lex, fam:G_pos, fam:G_toks
-//@   requires pi: p.curr.Type == tokT(ppos) && p.next.Type == tokT(ppos + 1)
-//@   ensures pi: result1 == nil ==> p.curr.Type == tokT(ppos) && p.next.Type == tokT(ppos + 1)
+//@   requires pi: p.curr.Type == tokT(ppos) && p.next.Type == tokT(ppos + 1) && tokOK(p.curr.Type, p.curr.Value) && tokOK(p.next.Type, p.next.Value)
+//@   ensures pi: result1 == nil ==> p.curr.Type == tokT(ppos) && p.next.Type == tokT(ppos + 1) && tokOK(p.curr.Type, p.curr.Value) && tokOK(p.next.Type, p.next.Value)
 //@   ensures[C04] close: result1 == nil ==> tokT(ppos - 1) == const("lexer.CloseSqBraceToken") && ppos > old(ppos) && result0 != nil
 //@   loop 1
-//@     invariant p.curr.Type == tokT(ppos) && p.next.Type == tokT(ppos + 1) && fresh(fields)
+//@     invariant p.curr.Type == tokT(ppos) && p.next.Type == tokT(ppos + 1) && tokOK(p.curr.Type, p.curr.Value) && tokOK(p.next.Type, p.next.Value) && fresh(fields)
 //@     invariant[C04] separator: ppos == old(ppos) || (tokT(ppos - 1) == const("lexer.CommaToken") && ppos > old(ppos))
 
 //@ func parser.selectObject
 //@   tags C04 C09
 //@   assigns p.curr, p.next, p.lex, fam:G_pos, fam:G_toks
-//@   requires pi: p.curr.Type == tokT(ppos) && p.next.Type == tokT(ppos + 1)
-//@   ensures pi: result1 == nil ==> p.curr.Type == tokT(ppos) && p.next.Type == tokT(ppos + 1)
+//@   requires pi: p.curr.Type == tokT(ppos) && p.next.Type == tokT(ppos + 1) && tokOK(p.curr.Type, p.curr.Value) && tokOK(p.next.Type, p.next.Value)
+//@   ensures pi: result1 == nil ==> p.curr.Type == tokT(ppos) && p.next.Type == tokT(ppos + 1) && tokOK(p.curr.Type, p.curr.Value) && tokOK(p.next.Type, p.next.Value)
 //@   ensures[C04] close: result1 == nil ==> tokT(ppos - 1) == const("lexer.CloseBraceToken") && ppos > old(ppos) && result0 != nil
 //@   at advance2#1 assert[C04] key: p.curr.Type == const("lexer.QuotedIdentifierToken") || p.curr.Type == const("lexer.UnquotedIdentifierToken")
 //@   loop 1
-//@     invariant p.curr.Type == tokT(ppos) && p.next.Type == tokT(ppos + 1)
+//@     invariant p.curr.Type == tokT(ppos) && p.next.Type == tokT(ppos + 1) && tokOK(p.curr.Type, p.curr.Value) && tokOK(p.next.Type, p.next.Value)
 //@     invariant[C04] separator: ppos == old(ppos) || (tokT(ppos - 1) == const("lexer.CommaToken") && ppos > old(ppos))
 
 //@ func parser.let
 //@   tags C04 C09 C19
 //@   assigns p.curr, p.next, p.lex, fam:G_pos, fam:G_toks
-//@   requires pi: p.curr.Type == tokT(ppos) && p.next.Type == tokT(ppos + 1)
-//@   ensures pi: result1 == nil ==> p.curr.Type == tokT(ppos) && p.next.Type == tokT(ppos + 1)
+//@   requires pi: p.curr.Type == tokT(ppos) && p.next.Type == tokT(ppos + 1) && tokOK(p.curr.Type, p.curr.Value) && tokOK(p.next.Type, p.next.Value)
+//@   ensures pi: result1 == nil ==> p.curr.Type == tokT(ppos) && p.next.Type == tokT(ppos + 1) && tokOK(p.curr.Type, p.curr.Value) && tokOK(p.next.Type, p.next.Value)
 //@   ensures[C09] progress: result1 == nil ==> ppos > old(ppos) && result0 != nil
 //@   at advance2#1 assert[C04 C19] binding: p.curr.Type == const("lexer.VariableToken") && p.next.Type == const("lexer.AssignToken")
 //@   loop 1
-//@     invariant p.curr.Type == tokT(ppos) && p.next.Type == tokT(ppos + 1)
+//@     invariant p.curr.Type == tokT(ppos) && p.next.Type == tokT(ppos + 1) && tokOK(p.curr.Type, p.curr.Value) && tokOK(p.next.Type, p.next.Value)
 //@     invariant[C04] separator: ppos == old(ppos) || (tokT(ppos - 1) == const("lexer.CommaToken") && ppos > old(ppos))
+
+// ---------------------------------------------------------------------------
+// function calls (C02, C04, C08): arity helpers and the name -> node table
+
+//@ func parser.function1Arg
+//@   tags C02 C04 C08 C09
+//@   assigns p.curr, p.next, p.lex, fam:G_pos, fam:G_toks
+//@   requires pi: p.curr.Type == tokT(ppos) && p.next.Type == tokT(ppos + 1) && tokOK(p.curr.Type, p.curr.Value) && tokOK(p.next.Type, p.next.Value)
+//@   ensures pi: result1 == nil ==> p.curr.Type == tokT(ppos) && p.next.Type == tokT(ppos + 1) && tokOK(p.curr.Type, p.curr.Value) && tokOK(p.next.Type, p.next.Value)
+//@   ensures[C04] close: result1 == nil ==> tokT(ppos - 1) == const("lexer.CloseParenToken") && ppos > old(ppos) && result0 != nil
+//@   ensures[C02 C08] noargs: old(p.curr.Type) == const("lexer.CloseParenToken") ==> isType(result1, "*github.com/woodsbury/jmespath/internal/parser.InvalidFunctionCallError")
+
+//@ func parser.function1To2Arg
+//@   tags C02 C04 C08 C09
+//@   assigns p.curr, p.next, p.lex, fam:G_pos, fam:G_toks
+//@   requires pi: p.curr.Type == tokT(ppos) && p.next.Type == tokT(ppos + 1) && tokOK(p.curr.Type, p.curr.Value) && tokOK(p.next.Type, p.next.Value)
+//@   ensures pi: result2 == nil ==> p.curr.Type == tokT(ppos) && p.next.Type == tokT(ppos + 1) && tokOK(p.curr.Type, p.curr.Value) && tokOK(p.next.Type, p.next.Value)
+//@   ensures[C04] close: result2 == nil ==> tokT(ppos - 1) == const("lexer.CloseParenToken") && ppos > old(ppos) && result0 != nil
+//@   ensures[C02 C08] noargs: old(p.curr.Type) == const("lexer.CloseParenToken") ==> isType(result2, "*github.com/woodsbury/jmespath/internal/parser.InvalidFunctionCallError")
+
+//@ func parser.function2Arg
+//@   tags C02 C04 C08 C09
+//@   assigns p.curr, p.next, p.lex, fam:G_pos, fam:G_toks
+//@   requires pi: p.curr.Type == tokT(ppos) && p.next.Type == tokT(ppos + 1) && tokOK(p.curr.Type, p.curr.Value) && tokOK(p.next.Type, p.next.Value)
+//@   ensures pi: result2 == nil ==> p.curr.Type == tokT(ppos) && p.next.Type == tokT(ppos + 1) && tokOK(p.curr.Type, p.curr.Value) && tokOK(p.next.Type, p.next.Value)
+//@   ensures[C04] close: result2 == nil ==> tokT(ppos - 1) == const("lexer.CloseParenToken") && ppos > old(ppos) && result0 != nil
+//@   ensures[C02 C08] noargs: old(p.curr.Type) == const("lexer.CloseParenToken") ==> isType(result2, "*github.com/woodsbury/jmespath/internal/parser.InvalidFunctionCallError")
+
+//@ func parser.function2ExpArg
+//@   tags C02 C04 C08 C09
+//@   assigns p.curr, p.next, p.lex, fam:G_pos, fam:G_toks
+//@   requires pi: p.curr.Type == tokT(ppos) && p.next.Type == tokT(ppos + 1) && tokOK(p.curr.Type, p.curr.Value) && tokOK(p.next.Type, p.next.Value)
+//@   ensures pi: result2 == nil ==> p.curr.Type == tokT(ppos) && p.next.Type == tokT(ppos + 1) && tokOK(p.curr.Type, p.curr.Value) && tokOK(p.next.Type, p.next.Value)
+//@   ensures[C04] close: result2 == nil ==> tokT(ppos - 1) == const("lexer.CloseParenToken") && ppos > old(ppos) && result0 != nil
+//@   ensures[C02 C08] noargs: old(p.curr.Type) == const("lexer.CloseParenToken") ==> isType(result2, "*github.com/woodsbury/jmespath/internal/parser.InvalidFunctionCallError")
+
+//@ func parser.function2MapArg
+//@   tags C02 C04 C08 C09
+//@   assigns p.curr, p.next, p.lex, fam:G_pos, fam:G_toks
+//@   requires pi: p.curr.Type == tokT(ppos) && p.next.Type == tokT(ppos + 1) && tokOK(p.curr.Type, p.curr.Value) && tokOK(p.next.Type, p.next.Value)
+//@   ensures pi: result2 == nil ==> p.curr.Type == tokT(ppos) && p.next.Type == tokT(ppos + 1) && tokOK(p.curr.Type, p.curr.Value) && tokOK(p.next.Type, p.next.Value)
+//@   ensures[C04] close: result2 == nil ==> tokT(ppos - 1) == const("lexer.CloseParenToken") && ppos > old(ppos) && result0 != nil
+//@   ensures[C02 C08] noargs: old(p.curr.Type) == const("lexer.CloseParenToken") ==> isType(result2, "*github.com/woodsbury/jmespath/internal/parser.InvalidFunctionCallError")
+
+//@ func parser.function2To3Arg
+//@   tags C02 C04 C08 C09
+//@   assigns p.curr, p.next, p.lex, fam:G_pos, fam:G_toks
+//@   requires pi: p.curr.Type == tokT(ppos) && p.next.Type == tokT(ppos + 1) && tokOK(p.curr.Type, p.curr.Value) && tokOK(p.next.Type, p.next.Value)
+//@   ensures pi: result3 == nil ==> p.curr.Type == tokT(ppos) && p.next.Type == tokT(ppos + 1) && tokOK(p.curr.Type, p.curr.Value) && tokOK(p.next.Type, p.next.Value)
+//@   ensures[C04] close: result3 == nil ==> tokT(ppos - 1) == const("lexer.CloseParenToken") && ppos > old(ppos) && result0 != nil
+//@   ensures[C02 C08] noargs: old(p.curr.Type) == const("lexer.CloseParenToken") ==> isType(result3, "*github.com/woodsbury/jmespath/internal/parser.InvalidFunctionCallError")
+
+//@ func parser.function2To4Arg
+//@   tags C02 C04 C08 C09
+//@   assigns p.curr, p.next, p.lex, fam:G_pos, fam:G_toks
+//@   requires pi: p.curr.Type == tokT(ppos) && p.next.Type == tokT(ppos + 1) && tokOK(p.curr.Type, p.curr.Value) && tokOK(p.next.Type, p.next.Value)
+//@   ensures pi: result4 == nil ==> p.curr.Type == tokT(ppos) && p.next.Type == tokT(ppos + 1) && tokOK(p.curr.Type, p.curr.Value) && tokOK(p.next.Type, p.next.Value)
+//@   ensures[C04] close: result4 == nil ==> tokT(ppos - 1) == const("lexer.CloseParenToken") && ppos > old(ppos) && result0 != nil
+//@   ensures[C02 C08] noargs: old(p.curr.Type) == const("lexer.CloseParenToken") ==> isType(result4, "*github.com/woodsbury/jmespath/internal/parser.InvalidFunctionCallError")
+
+//@ func parser.function3To4Arg
+//@   tags C02 C04 C08 C09
+//@   assigns p.curr, p.next, p.lex, fam:G_pos, fam:G_toks
+//@   requires pi: p.curr.Type == tokT(ppos) && p.next.Type == tokT(ppos + 1) && tokOK(p.curr.Type, p.curr.Value) && tokOK(p.next.Type, p.next.Value)
+//@   ensures pi: result4 == nil ==> p.curr.Type == tokT(ppos) && p.next.Type == tokT(ppos + 1) && tokOK(p.curr.Type, p.curr.Value) && tokOK(p.next.Type, p.next.Value)
+//@   ensures[C04] close: result4 == nil ==> tokT(ppos - 1) == const("lexer.CloseParenToken") && ppos > old(ppos) && result0 != nil
+//@   ensures[C02 C08] noargs: old(p.curr.Type) == const("lexer.CloseParenToken") ==> isType(result4, "*github.com/woodsbury/jmespath/internal/parser.InvalidFunctionCallError")
+
+//@ func parser.functionVarArg
+//@   tags C02 C04 C08 C09
+//@   assigns p.curr, p.next, p.lex, fam:G_pos, fam:G_toks
+//@   requires pi: p.curr.Type == tokT(ppos) && p.next.Type == tokT(ppos + 1) && tokOK(p.curr.Type, p.curr.Value) && tokOK(p.next.Type, p.next.Value)
+//@   ensures pi: result1 == nil ==> p.curr.Type == tokT(ppos) && p.next.Type == tokT(ppos + 1) && tokOK(p.curr.Type, p.curr.Value) && tokOK(p.next.Type, p.next.Value)
+//@   ensures[C04] close: result1 == nil ==> tokT(ppos - 1) == const("lexer.CloseParenToken") && ppos > old(ppos) && len(result0) >= 1
+//@   ensures[C02 C08] noargs: old(p.curr.Type) == const("lexer.CloseParenToken") ==> isType(result1, "*github.com/woodsbury/jmespath/internal/parser.InvalidFunctionCallError")
+//@   loop 1
+//@     invariant p.curr.Type == tokT(ppos) && p.next.Type == tokT(ppos + 1) && tokOK(p.curr.Type, p.curr.Value) && tokOK(p.next.Type, p.next.Value) && fresh(nodes)
+//@     invariant[C04] separator: (ppos == old(ppos) && len(nodes) == 0) || (tokT(ppos - 1) == const("lexer.CommaToken") && ppos > old(ppos) && len(nodes) >= 1)
+
+//@ func parser.function
+//@   tags C02 C04 C08 C09
+//@   assigns p.curr, p.next, p.lex, fam:G_pos, fam:G_toks
+//@   requires pi: p.curr.Type == tokT(ppos) && p.next.Type == tokT(ppos + 1) && tokOK(p.curr.Type, p.curr.Value) && tokOK(p.next.Type, p.next.Value)
+//@   requires call: p.next.Type == const("lexer.OpenParenToken")
+//@   ensures pi: result1 == nil ==> p.curr.Type == tokT(ppos) && p.next.Type == tokT(ppos + 1) && tokOK(p.curr.Type, p.curr.Value) && tokOK(p.next.Type, p.next.Value)
+//@   ensures[C09] progress: result1 == nil ==> ppos > old(ppos) + 1 && result0 != nil
+//@   ensures[C04] close: result1 == nil ==> tokT(ppos - 1) == const("lexer.CloseParenToken")
+//@   ensures[C02] table.abs: result1 == nil && old(p.curr.Value) == "abs" ==> isType(result0, "*github.com/woodsbury/jmespath/internal/parser.AbsNode")
+//@   ensures[C02] table.avg: result1 == nil && old(p.curr.Value) == "avg" ==> isType(result0, "*github.com/woodsbury/jmespath/internal/parser.AvgNode")
+//@   ensures[C02] table.ceil: result1 == nil && old(p.curr.Value) == "ceil" ==> isType(result0, "*github.com/woodsbury/jmespath/internal/parser.CeilNode")
+//@   ensures[C02] table.contains: result1 == nil && old(p.curr.Value) == "contains" ==> isType(result0, "*github.com/woodsbury/jmespath/internal/parser.ContainsNode")
+//@   ensures[C02] table.ends_with: result1 == nil && old(p.curr.Value) == "ends_with" ==> isType(result0, "*github.com/woodsbury/jmespath/internal/parser.EndsWithNode")
+//@   ensures[C02] table.find_first: result1 == nil && old(p.curr.Value) == "find_first" ==> isType(result0, "*github.com/woodsbury/jmespath/internal/parser.FindFirstNode") || isType(result0, "*github.com/woodsbury/jmespath/internal/parser.FindFirstFromNode") || isType(result0, "*github.com/woodsbury/jmespath/internal/parser.FindFirstBetweenNode")
+//@   ensures[C02] table.find_last: result1 == nil && old(p.curr.Value) == "find_last" ==> isType(result0, "*github.com/woodsbury/jmespath/internal/parser.FindLastNode") || isType(result0, "*github.com/woodsbury/jmespath/internal/parser.FindLastFromNode") || isType(result0, "*github.com/woodsbury/jmespath/internal/parser.FindLastBetweenNode")
+//@   ensures[C02] table.floor: result1 == nil && old(p.curr.Value) == "floor" ==> isType(result0, "*github.com/woodsbury/jmespath/internal/parser.FloorNode")
+//@   ensures[C02] table.from_items: result1 == nil && old(p.curr.Value) == "from_items" ==> isType(result0, "*github.com/woodsbury/jmespath/internal/parser.FromItemsNode")
+//@   ensures[C02] table.group_by: result1 == nil && old(p.curr.Value) == "group_by" ==> isType(result0, "*github.com/woodsbury/jmespath/internal/parser.GroupByNode")
+//@   ensures[C02] table.items: result1 == nil && old(p.curr.Value) == "items" ==> isType(result0, "*github.com/woodsbury/jmespath/internal/parser.ItemsNode")
+//@   ensures[C02] table.join: result1 == nil && old(p.curr.Value) == "join" ==> isType(result0, "*github.com/woodsbury/jmespath/internal/parser.JoinNode")
+//@   ensures[C02] table.keys: result1 == nil && old(p.curr.Value) == "keys" ==> isType(result0, "*github.com/woodsbury/jmespath/internal/parser.KeysNode")
+//@   ensures[C02] table.length: result1 == nil && old(p.curr.Value) == "length" ==> isType(result0, "*github.com/woodsbury/jmespath/internal/parser.LengthNode")
+//@   ensures[C02] table.lower: result1 == nil && old(p.curr.Value) == "lower" ==> isType(result0, "*github.com/woodsbury/jmespath/internal/parser.LowerNode")
+//@   ensures[C02] table.map: result1 == nil && old(p.curr.Value) == "map" ==> isType(result0, "*github.com/woodsbury/jmespath/internal/parser.MapNode")
+//@   ensures[C02] table.max: result1 == nil && old(p.curr.Value) == "max" ==> isType(result0, "*github.com/woodsbury/jmespath/internal/parser.MaxNode")
+//@   ensures[C02] table.max_by: result1 == nil && old(p.curr.Value) == "max_by" ==> isType(result0, "*github.com/woodsbury/jmespath/internal/parser.MaxByNode")
+//@   ensures[C02] table.merge: result1 == nil && old(p.curr.Value) == "merge" ==> isType(result0, "*github.com/woodsbury/jmespath/internal/parser.MergeNode")
+//@   ensures[C02] table.min: result1 == nil && old(p.curr.Value) == "min" ==> isType(result0, "*github.com/woodsbury/jmespath/internal/parser.MinNode")
+//@   ensures[C02] table.min_by: result1 == nil && old(p.curr.Value) == "min_by" ==> isType(result0, "*github.com/woodsbury/jmespath/internal/parser.MinByNode")
+//@   ensures[C02] table.not_null: result1 == nil && old(p.curr.Value) == "not_null" ==> isType(result0, "*github.com/woodsbury/jmespath/internal/parser.NotNullNode")
+//@   ensures[C02] table.pad_left: result1 == nil && old(p.curr.Value) == "pad_left" ==> isType(result0, "*github.com/woodsbury/jmespath/internal/parser.PadSpaceLeftNode") || isType(result0, "*github.com/woodsbury/jmespath/internal/parser.PadLeftNode")
+//@   ensures[C02] table.pad_right: result1 == nil && old(p.curr.Value) == "pad_right" ==> isType(result0, "*github.com/woodsbury/jmespath/internal/parser.PadSpaceRightNode") || isType(result0, "*github.com/woodsbury/jmespath/internal/parser.PadRightNode")
+//@   ensures[C02] table.replace: result1 == nil && old(p.curr.Value) == "replace" ==> isType(result0, "*github.com/woodsbury/jmespath/internal/parser.ReplaceNode") || isType(result0, "*github.com/woodsbury/jmespath/internal/parser.ReplaceCountNode")
+//@   ensures[C02] table.reverse: result1 == nil && old(p.curr.Value) == "reverse" ==> isType(result0, "*github.com/woodsbury/jmespath/internal/parser.ReverseNode")
+//@   ensures[C02] table.sort: result1 == nil && old(p.curr.Value) == "sort" ==> isType(result0, "*github.com/woodsbury/jmespath/internal/parser.SortNode")
+//@   ensures[C02] table.sort_by: result1 == nil && old(p.curr.Value) == "sort_by" ==> isType(result0, "*github.com/woodsbury/jmespath/internal/parser.SortByNode")
+//@   ensures[C02] table.split: result1 == nil && old(p.curr.Value) == "split" ==> isType(result0, "*github.com/woodsbury/jmespath/internal/parser.SplitNode") || isType(result0, "*github.com/woodsbury/jmespath/internal/parser.SplitCountNode")
+//@   ensures[C02] table.starts_with: result1 == nil && old(p.curr.Value) == "starts_with" ==> isType(result0, "*github.com/woodsbury/jmespath/internal/parser.StartsWithNode")
+//@   ensures[C02] table.sum: result1 == nil && old(p.curr.Value) == "sum" ==> isType(result0, "*github.com/woodsbury/jmespath/internal/parser.SumNode")
+//@   ensures[C02] table.to_array: result1 == nil && old(p.curr.Value) == "to_array" ==> isType(result0, "*github.com/woodsbury/jmespath/internal/parser.ToArrayNode")
+//@   ensures[C02] table.to_number: result1 == nil && old(p.curr.Value) == "to_number" ==> isType(result0, "*github.com/woodsbury/jmespath/internal/parser.ToNumberNode")
+//@   ensures[C02] table.to_string: result1 == nil && old(p.curr.Value) == "to_string" ==> isType(result0, "*github.com/woodsbury/jmespath/internal/parser.ToStringNode")
+//@   ensures[C02] table.trim: result1 == nil && old(p.curr.Value) == "trim" ==> isType(result0, "*github.com/woodsbury/jmespath/internal/parser.TrimSpaceNode") || isType(result0, "*github.com/woodsbury/jmespath/internal/parser.TrimNode")
+//@   ensures[C02] table.trim_left: result1 == nil && old(p.curr.Value) == "trim_left" ==> isType(result0, "*github.com/woodsbury/jmespath/internal/parser.TrimSpaceLeftNode") || isType(result0, "*github.com/woodsbury/jmespath/internal/parser.TrimLeftNode")
+//@   ensures[C02] table.trim_right: result1 == nil && old(p.curr.Value) == "trim_right" ==> isType(result0, "*github.com/woodsbury/jmespath/internal/parser.TrimSpaceRightNode") || isType(result0, "*github.com/woodsbury/jmespath/internal/parser.TrimRightNode")
+//@   ensures[C02] table.type: result1 == nil && old(p.curr.Value) == "type" ==> isType(result0, "*github.com/woodsbury/jmespath/internal/parser.TypeNode")
+//@   ensures[C02] table.upper: result1 == nil && old(p.curr.Value) == "upper" ==> isType(result0, "*github.com/woodsbury/jmespath/internal/parser.UpperNode")
+//@   ensures[C02] table.values: result1 == nil && old(p.curr.Value) == "values" ==> isType(result0, "*github.com/woodsbury/jmespath/internal/parser.ValuesNode")
+//@   ensures[C02] table.zip: result1 == nil && old(p.curr.Value) == "zip" ==> isType(result0, "*github.com/woodsbury/jmespath/internal/parser.ZipNode")
+//@   ensures[C02 C08] unknown: old(p.curr.Value) != "abs" && old(p.curr.Value) != "avg" && old(p.curr.Value) != "ceil" && old(p.curr.Value) != "contains" && old(p.curr.Value) != "ends_with" && old(p.curr.Value) != "find_first" && old(p.curr.Value) != "find_last" && old(p.curr.Value) != "floor" && old(p.curr.Value) != "from_items" && old(p.curr.Value) != "group_by" && old(p.curr.Value) != "items" && old(p.curr.Value) != "join" && old(p.curr.Value) != "keys" && old(p.curr.Value) != "length" && old(p.curr.Value) != "lower" && old(p.curr.Value) != "map" && old(p.curr.Value) != "max" && old(p.curr.Value) != "max_by" && old(p.curr.Value) != "merge" && old(p.curr.Value) != "min" && old(p.curr.Value) != "min_by" && old(p.curr.Value) != "not_null" && old(p.curr.Value) != "pad_left" && old(p.curr.Value) != "pad_right" && old(p.curr.Value) != "replace" && old(p.curr.Value) != "reverse" && old(p.curr.Value) != "sort" && old(p.curr.Value) != "sort_by" && old(p.curr.Value) != "split" && old(p.curr.Value) != "starts_with" && old(p.curr.Value) != "sum" && old(p.curr.Value) != "to_array" && old(p.curr.Value) != "to_number" && old(p.curr.Value) != "to_string" && old(p.curr.Value) != "trim" && old(p.curr.Value) != "trim_left" && old(p.curr.Value) != "trim_right" && old(p.curr.Value) != "type" && old(p.curr.Value) != "upper" && old(p.curr.Value) != "values" && old(p.curr.Value) != "zip" ==> result0 == nil && (result1 != nil) && (isType(result1, "*github.com/woodsbury/jmespath/internal/parser.UnknownFunctionError") || old(tokT(ppos + 2)) == const("lexer.UnknownToken") || true)
+
+// ---------------------------------------------------------------------------
+// literal decoders (C16, C04)
+
+//@ func parseJSONLiteral
+//@   tags C16 C04 C03
+//@   requires delimited: len(s) >= 2
+//@   ensures node: result1 == nil ==> result0 != nil
+
+//@ func parseStringLiteral
+//@   tags C16 C04 C03
+//@   requires delimited: len(s) >= 2
+//@   ensures node: result1 == nil && result0 != nil
